@@ -530,7 +530,8 @@ def ser_run(case):
             # alignments for a second cognate-id column: one more section of <msa> blocks in the file
             obj.add_alignments(ref=case["second_ref"])
             obj.align(method="progressive", ref=case["second_ref"])
-        if h == 0 and case["type"] == "alignments" and case.get("consensus"):
+        if h == 0 and case["type"] == "alignments" and case.get("consensus") and obj.msa["cogid"]:
+            # (get_consensus needs at least one aligned cognate set)
             obj.align(method="progressive", swap_check=bool(case.get("swap_check")))
             obj.get_consensus(gaps=case["consensus"] == "gaps")
         before = observe(obj)
@@ -547,6 +548,7 @@ def ser_run(case):
                 for msa in obj.msa["cogid"].values():
                     msa["local"] = list(range(0, len(msa["alignment"][0]), 2))
             step["msa_saved"] = _msa_struct(obj)
+            step["msa_refs"] = [str(r) for r in obj.msa]      # a reference column without any aligned set still gets its heading
             step["msa_saved_cogid"] = _msa_struct(obj, ["cogid"])
         obj.output("tsv", filename=path, prettify=case["prettify"], ignore=case.get("ignore", "all"))
         step["text"] = file_lines(path + ".tsv")
@@ -750,7 +752,7 @@ class _Msa:
     @staticmethod
     def render(case, res):
         pretty = bool(case["case"]["prettify"])
-        refs = []
+        refs = list(res.get("msa_refs", []))
         for m in res["msa_saved"]:
             if m["ref"] not in refs:
                 refs.append(m["ref"])
